@@ -422,6 +422,68 @@ pub fn run_c06(rep: &Report) -> i32 {
                 }
             });
         }
+        // "stray" templates: one byte that looks like the second / third /
+        // fourth byte of a pattern early in the haystack, then clean filler,
+        // then a pattern at EVERY offset up to three vector widths, then a
+        // tail long enough to keep it out of the final overlapping window:
+        // state carried from one vector window to the next (prev0..prev2)
+        // must not go stale across windows without candidates
+        {
+            let fl = fills[0];
+            let mut strays: Vec<u8> = vec![];
+            for p in &f.pats {
+                for &x in p.iter().skip(1).take(3) {
+                    if !strays.contains(&x) && !f.pats.iter().any(|q| q.len() == 1 && q[0] == x) && strays.len() < 4 {
+                        strays.push(x);
+                    }
+                }
+            }
+            let idx: Vec<usize> = if f.pats.len() <= 6 { (0..f.pats.len()).collect() } else { vec![0, 1, f.pats.len() / 2, f.pats.len() - 1] };
+            let mut h: Vec<u8> = Vec::with_capacity(5 * V);
+            for &pi in &idx {
+                let p = &f.pats[pi];
+                if p.len() > 2 * V {
+                    continue;
+                }
+                let occ0 = spec.occ(p, 0, p.len(), false);
+                for &sb in &strays {
+                    for a in [0usize, 1, 2] {
+                        // at least one clean byte between the stray byte and
+                        // the pattern, so that the only occurrences are those of
+                        // the pattern itself
+                        for i in a + 2..=3 * V + 4 {
+                            if !t && i > a + 2 && (i % 16) > 4 && (i % 16) < 13 {
+                                continue; // quick tier: offsets near the 16-byte window boundaries
+                            }
+                            for j in [0usize, 17, V + 8, 2 * V + 8] {
+                                h.clear();
+                                h.extend(std::iter::repeat(fl).take(a));
+                                h.push(sb);
+                                h.extend(std::iter::repeat(fl).take(i - a - 1));
+                                h.extend_from_slice(p);
+                                h.extend(std::iter::repeat(fl).take(j));
+                                let exp = Spec::select(w.kind, shift(&occ0, i).into_iter());
+                                let got = catch_unwind(AssertUnwindSafe(|| sr.find(&h).map(mm)));
+                                st.add("searches", 1);
+                                st.add("stray_template_searches", 1);
+                                if got.as_ref().ok() != Some(&exp) {
+                                    rep.violation(Violation {
+                                        property: rep.property.clone(),
+                                        what: "packed-find-mismatch".into(),
+                                        case: packed_case(&f.pats, w.kind, w.var, &h, 0, h.len(), "find"),
+                                        detail: format!(
+                                            "{} {} {} {}: find(\"{}\") (stray byte {:#04x} at {}, pattern at {}): got {:?}, SPEC {:?}",
+                                            f.name, pats_show(&f.pats), w.kind.name(), vname, json::show(&h), sb, a, i, got.map_err(|p| crate::aut::panic_msg(&p)), exp
+                                        ),
+                                        tags: vec![("variant".into(), vname.clone()), ("kind".into(), w.kind.name().into())],
+                                    });
+                                }
+                            }
+                        }
+                    }
+                }
+            }
+        }
         if rep.nsamples() < 4 && ix % 37 == 5 {
             rep.sample(
                 J::obj()
@@ -444,7 +506,7 @@ pub fn run_c06(rep: &Report) -> i32 {
     let cov = J::obj()
         .set("evaluations", J::i(ev.max(1)))
         .set("distinct_nontrivial", J::i(rep.get("haystacks_with_match")))
-        .set("rule", J::s("for every packed variant (Rabin-Karp, slim Teddy 128, slim Teddy 256, fat Teddy 256, default heuristics; fingerprint length = min(4, shortest pattern)) x leftmost-first/longest x pattern family x core (all strings <= 2/3 over the family alphabet, each pattern, pattern.pattern, prefix.pattern, suffix.pattern, every one-byte near miss) x filler (clean, low-nybble decoy, high-nybble decoy) x every offset i x tail j: find_in on the whole haystack and on 5 span forms (every span for short haystacks in thorough) and find_iter, compared with SPEC leftmost selection over the occurrence set; plus six lists with a 65535 / 65536 / 65539-byte pattern and its 8-byte prefix (both orders) on four haystacks, every variant; plus the construction contract: 14 lists (incl. an empty pattern first / middle / last, 64..300 patterns) x 7 ways of obtaining a searcher (Searcher::new, builder(), config(), add one by one, Default impls, toggled force options): either no searcher is returned or it agrees with SPEC for the whole list; Builder::len / minimum_len / match_kind. A haystack is non-trivial when it contains at least one occurrence"))
+        .set("rule", J::s("for every packed variant (Rabin-Karp, slim Teddy 128, slim Teddy 256, fat Teddy 256, default heuristics; fingerprint length = min(4, shortest pattern)) x leftmost-first/longest x pattern family x core (all strings <= 2/3 over the family alphabet, each pattern, pattern.pattern, prefix.pattern, suffix.pattern, every one-byte near miss) x filler (clean, low-nybble decoy, high-nybble decoy) x every offset i x tail j: find_in on the whole haystack and on 5 span forms (every span for short haystacks in thorough) and find_iter, compared with SPEC leftmost selection over the occurrence set; plus six lists with a 65535 / 65536 / 65539-byte pattern and its 8-byte prefix (both orders) on four haystacks, every variant; plus stray templates (a single second/third/fourth-byte look-alike early in the haystack, clean filler, a pattern at every offset up to three vector widths, long tails); plus the construction contract: 14 lists (incl. an empty pattern first / middle / last, 64..300 patterns) x 7 ways of obtaining a searcher (Searcher::new, builder(), config(), add one by one, Default impls, toggled force options): either no searcher is returned or it agrees with SPEC for the whole list; Builder::len / minimum_len / match_kind. A haystack is non-trivial when it contains at least one occurrence"))
         .set("variants_exercised", J::i(rep.set_len("variants_exercised") as i64))
         .set("exhaustive", J::Bool(true))
         .set("bounds", J::s(format!("total haystack length <= {}; offsets 0..={}; vector width considered {}", 2 * V + 8, imax(4, t), V)))
@@ -850,6 +912,14 @@ fn pfam_n(name: &str, n: usize) -> PFam {
     f
 }
 
+/// n patterns k000x, k001x, ... (one start byte, many rare bytes).
+fn pfam_k(name: &str, n: usize) -> PFam {
+    let pats: Pats = (0..n).map(|i| format!("k{:03}x", i).into_bytes()).collect();
+    let mut f = pfam(name, pats, false);
+    f.alpha = vec![b'k', b'0', b'x'];
+    f
+}
+
 /// A long pattern e^k z (its only rare byte at offset k) next to a short
 /// pattern with another rare byte: the rare-byte prefilter's offset table
 /// holds u8 shifts, and patterns of >= 256 bytes switch that prefilter off.
@@ -874,6 +944,8 @@ pub fn prefilter_families() -> Vec<PFam> {
         pfam("memmem-a", vec![b("a")], false),
         pfam("memmem-abcabd", vec![b("abcabd")], false),
         pfam("memmem-aab", vec![b("aab")], false),
+        pfam("memmem-ab", vec![b("ab")], false),
+        pfam("memmem-aa", vec![b("aa")], false),
         pfam("start1-ab-ac", vec![b("ab"), b("ac")], false),
         pfam("start1-a-ab", vec![b("a"), b("ab")], false),
         pfam("start1-abc-ab", vec![b("abc"), b("ab"), b("abd")], false),
@@ -908,6 +980,10 @@ pub fn prefilter_families() -> Vec<PFam> {
         pfam("rare-ff-start", vec![vec![0xFF, 0xD8, 0xFF], vec![0x89, b'P', b'N', b'G', b'\r', b'\n']], false),
         pfam("start2-ff-00", vec![vec![0xFF, b'a'], vec![0x00, b'b']], false),
         pfam("start3-ff-fe-00", vec![vec![0xFF, b'a'], vec![0x00, b'b'], vec![0xFE, b'c']], false),
+        // pattern counts around 256 and 512 (8-bit counters)
+        pfam_k("n256-k", 256),
+        pfam_k("n257-k", 257),
+        pfam_k("n513-k", 513),
         pfam_n("n17-packed", 17),
         pfam_n("n65-packed", 65),
         pfam_n("n129-packed", 129),
@@ -1749,10 +1825,62 @@ pub fn check_huge_match_lists(rep: &Report) {
     });
 }
 
+/// Pattern identifiers beyond 2^15 and 2^16 (ids packed into narrow fields):
+/// "needle" (id 0), n filler patterns, "haystack-needle" (id n+1): the state of
+/// the last pattern lists exactly two ids, a large one and 0.
+pub fn check_huge_id_space(rep: &Report) {
+    let mut items = vec![];
+    for n in [40_000usize, 70_000] {
+        for ak in AKINDS {
+            if n > 40_000 && ak == AhoCorasickKind::DFA && !rep.thorough() {
+                continue;
+            }
+            items.push((n, ak));
+        }
+    }
+    let desc = |i: usize| format!("huge id space n={} {}", items[i].0, akind_name(items[i].1));
+    par_for_desc(rep, items.len(), &desc, |ix, st| {
+        let (n, ak) = items[ix];
+        let mut pats: Pats = vec![b("needle")];
+        pats.extend((1..=n).map(|i| format!("f{:05}q", i).into_bytes()));
+        pats.push(b("haystack-needle"));
+        let ac = match build_ac(&pats, Kind::Std, false, ak, true) {
+            Ok(a) => a,
+            Err(e) => {
+                rep.violation(Violation { property: rep.property.clone(), what: "build-failed".into(), case: J::obj().set("engine", J::s("acdiff")).set("mode", J::s("huge-match-list")), detail: format!("{} patterns: {}", pats.len(), e), tags: vec![] });
+                return;
+            }
+        };
+        let h = b("in a haystack-needle, f00007q f39999q.");
+        let last = n + 1;
+        let exp_over: Vec<M> = vec![(last, 5, 20), (0, 14, 20), (7, 22, 29), (39_999, 30, 37)];
+        let exp_iter: Vec<M> = vec![(last, 5, 20), (7, 22, 29), (39_999, 30, 37)];
+        let got_over = catch_unwind(AssertUnwindSafe(|| ac.find_overlapping_iter(&h).take(16).map(mm).collect::<Vec<M>>()));
+        let got_iter = catch_unwind(AssertUnwindSafe(|| ac.find_iter(&h).take(16).map(mm).collect::<Vec<M>>()));
+        st.add("huge_id_space_cases", 1);
+        for (api, got, exp) in [("find_overlapping_iter", &got_over, &exp_over), ("find_iter", &got_iter, &exp_iter)] {
+            if got.as_ref().ok() != Some(exp) {
+                rep.violation(Violation {
+                    property: rep.property.clone(),
+                    what: "huge-id-space".into(),
+                    case: J::obj().set("engine", J::s("acdiff")).set("mode", J::s("huge-match-list")).set("n", J::i(n as i64)).set("ackind", J::s(akind_name(ak))),
+                    detail: format!(
+                        "[\"needle\", {} fillers f00001q.., \"haystack-needle\"] {} on \"{}\", {}: got {:?}, expected {:?}",
+                        n, akind_name(ak), json::show(&h), api, got.as_ref().map_err(|p| crate::aut::panic_msg(p)), exp
+                    ),
+                    tags: vec![],
+                });
+                return;
+            }
+        }
+    });
+}
+
 /// Replay of "acdiff" cases (C05 prefilter differential, C10 span).
 pub fn replay_acdiff(case: &J) -> i32 {
     if case.str_of("mode") == "huge-match-list" {
         let rep = Report::new("C03", "quick");
+        check_huge_id_space(&rep);
         check_huge_match_lists(&rep);
         println!("huge match lists re-run: {} violation(s)", rep.nviol());
         return (rep.nviol() > 0) as i32;
